@@ -238,6 +238,38 @@ def d3(repo, res):
     res.ob("D3:unit-factor-applied", bool(lf_mult), {"rule": "D3", "multiplications_by_length_factor": [norm(x) for x in lf_mult]})
     if not lf_mult:
         res.add(Finding("D3:unit", rel, "place_and_orient_model3d", "length_factor unused", "coordinates are not converted to the announced length unit"))
+    # ---- D3c: the displayed poses are position and orientation of the SAME object at the SAME path indices
+    um = repo.mod(U)
+    gfn = um.funcs.get("get_rot_pos_from_path")
+    if gfn is None:
+        from common import AnalysisError
+        raise AnalysisError("anchor vanished: traces_utility.get_rot_pos_from_path")
+    gdefs = {}
+    for n in ast.walk(gfn):
+        if isinstance(n, ast.Assign) and len(n.targets) == 1 and isinstance(n.targets[0], ast.Name):
+            gdefs.setdefault(n.targets[0].id, []).append(n.value)
+    grets = [r for r in ast.walk(gfn) if isinstance(r, ast.Return) and isinstance(r.value, ast.Tuple) and len(r.value.elts) >= 2]
+    okc, detail = bool(grets), {}
+    for r in grets:
+        a, b = r.value.elts[0], r.value.elts[1]
+
+        def one(e):
+            if isinstance(e, ast.Name) and len(gdefs.get(e.id, [])) == 1:
+                e = gdefs[e.id][0]
+            if isinstance(e, ast.Subscript):
+                base = e.value
+                if isinstance(base, ast.Name) and len(gdefs.get(base.id, [])) == 1:
+                    base = gdefs[base.id][0]
+                return ast.unparse(base), ast.unparse(e.slice)
+            return ast.unparse(e), None
+        (ba, ia), (bb, ib) = one(a), one(b)
+        detail = {"orientations": f"{ba}[{ia}]", "positions": f"{bb}[{ib}]"}
+        recv_a, recv_b = ba.rsplit(".", 1)[0], bb.rsplit(".", 1)[0]
+        okc = okc and ia is not None and ia == ib and recv_a == recv_b and ba.endswith("_orientation") and bb.endswith("_position")
+    res.ob("D3c:displayed poses pair position and orientation of one object at the same indices", okc, {"rule": "D3c", **detail})
+    if not okc:
+        res.add(Finding("D3c", rel, "get_rot_pos_from_path", grets[0] if grets else gfn, f"orientations and positions handed to the placement are not "
+                        f"`obj._orientation[i]` / `obj._position[i]` of one object with one index array: {detail}"))
     # ---- D3b: a placed model must not be placed again
     from flow import BaseClient, function_exits
     n_sites = 0
